@@ -467,6 +467,28 @@ def _simpler(rc):
     return out
 
 
+def _amplified(blob):
+    """True when an ECDSA verifier would inflate a zero-padded mpint of more than 64 KiB out of this blob.
+
+    Message.get_bytes pads a short read up to 1 MiB and util.inflate_long is quadratic, so a 30-byte blob that
+    declares a 900 KB mpint keeps verify_ssh_sig busy for 10-30 s. It still answers (False), i.e. it is outside
+    the statement; such blobs are excluded by construction (and counted) because they would eat the time budget.
+    """
+
+    def lenient(buf, pos):  # Message.get_string
+        n = int.from_bytes((buf[pos : pos + 4] + b"\0\0\0\0")[:4], "big")
+        body = buf[pos + 4 : pos + 4 + n]
+        if len(body) < n < (1 << 20):
+            body = body + b"\0" * (n - len(body))
+        return body, pos + 4 + n
+
+    alg, pos = lenient(blob, 0)
+    sig, _ = lenient(blob, pos)
+    r, pos = lenient(sig, 0)
+    s, _ = lenient(sig, pos)
+    return len(r) > 65536 or len(s) > 65536
+
+
 class _State:
     def __init__(self):
         self.seen = set()
@@ -484,6 +506,9 @@ def execute(ctx, rc, state):
         not trivial,
         ["signer:%s:%s" % (key_class(rc["signer"]), rc["sprov"]), "verifier:%s:%s" % (key_class(rc["verifier"]), rc["vprov"]), "mut:" + rc["mut"][0], "data:" + rc["data"]],
     )
+    if key_class(rc["verifier"]) == "ECDSAKey" and _amplified(blob):
+        ctx.exclude("ecdsa-mpint-padded-beyond-64KiB")
+        return
     res = judge(rc, data, blob)
     ctx.count("expected-true" if ref_public(rc["verifier"]).verify(data, blob)[0] else "expected-false")
     if res is None:
